@@ -33,6 +33,8 @@ pub struct Cfg {
     busy_fails: bool,
     /// every instance of the backend needs this long to become ready after it was cloned (0 = ready at once)
     warm_us: u64,
+    /// the backend is not ready (for anybody) during [from, to) us of virtual time
+    blackout: Option<(u64, u64)>,
 }
 
 const NEVER: u64 = u64::MAX;
@@ -118,7 +120,13 @@ pub fn gen(rng: &mut Prng) -> Cfg {
         None
     };
     let warm_us = if !busy_fails && !matches!(delay, Delay::NoDelay) && rng.chance(0.12) { *rng.pick(&[1000u64, 3000, 7000, 20_000]) } else { 0 };
-    Cfg { max, delay, reqs, stall, busy_fails, warm_us }
+    let blackout = if !busy_fails && warm_us == 0 && !matches!(delay, Delay::NoDelay) && !huge && rng.chance(0.12) {
+        let from = *rng.pick(&[1000u64, d / 2 / 1000 * 1000 + 1000, d + 1000]);
+        Some((from, from + *rng.pick(&[d, 2 * d + 1000, 4 * d])))
+    } else {
+        None
+    };
+    Cfg { max, delay, reqs, stall, busy_fails, warm_us, blackout }
 }
 
 fn map_err(e: &HedgeError<PErr>) -> Outcome {
@@ -148,6 +156,8 @@ pub fn run(cfg: &Cfg, seed: u64) -> (Arc<World>, crate::sim::SimStats) {
             w.probe(1).with_ready(crate::world::ReadyScript::FailWhileBusy(5))
         } else if cfg.warm_us > 0 {
             w.probe(1).with_ready(crate::world::ReadyScript::WarmUp(cfg.warm_us))
+        } else if let Some((from, to)) = cfg.blackout {
+            w.probe(1).with_ready(crate::world::ReadyScript::Blackout(from, to))
         } else {
             w.probe(1)
         };
@@ -343,7 +353,7 @@ pub fn judge(cfg: &Cfg, log: &[Rec]) -> Report {
             other => rep.violate(format!("C12:{mode}:unexpected-outcome"), format!("r{id}: resolved with {}", other.short())),
         }
     }
-    rep.bucket(format!("{mode} max={}{}", cfg.max, if cfg.busy_fails { " one-slot-backend" } else if cfg.warm_us > 0 { " warm-up-backend" } else { "" }));
+    rep.bucket(format!("{mode} max={}{}", cfg.max, if cfg.busy_fails { " one-slot-backend" } else if cfg.warm_us > 0 { " warm-up-backend" } else if cfg.blackout.is_some() { " blackout" } else { "" }));
     rep.nontrivial = multi && any_fail;
     rep
 }
